@@ -87,10 +87,15 @@ class Gen:
     # -- structure -----------------------------------------------------------------------
     def shareable(self, visible, in_rec):
         out = []
+        lazy_ok = self.rng.random() < self.p.get('p_share_lazy', 0.15)
         for nid in visible:
             f = self.flags[nid]
-            if f & {'case', 'cand', 'private_rec', 'dest'}:
+            if f & {'private_rec', 'dest'}:
                 continue
+            if 'case' in f and not lazy_ok:
+                continue        # a case that is also consumed directly (C09: "reused")
+            if 'cand' in f and self.hostile != 'candidate_shared':
+                continue        # a candidate that is also consumed directly: hostile family (D14)
             out.append(nid)
         return out
 
@@ -183,6 +188,7 @@ class Gen:
         for lab in labels:
             c = self.make(list(visible), depth - 1, in_rec=in_rec, in_cand=in_cand, role='case')
             cases.append([lab, c])
+            visible.append(c)
             if after_rec is not None and rng.random() < 0.7:
                 # the case sub-pipeline starts only after the recurrent result exists (decider depends on
                 # it) and reads a node inside the subgraph
@@ -213,6 +219,7 @@ class Gen:
         for i in range(n):
             c = self.make(list(visible), depth - 1, in_rec=in_rec, in_cand=True, role='cand')
             cands.append(c)
+            visible.append(c)
             # make early candidates fail often so that fallbacks are exercised
             node = self.nodes[c]
             if i < n - 1 and rng.random() < 0.6 and not node['plan'].get('fail'):
